@@ -89,7 +89,8 @@ class DispatchTable(object):
                     self.tail = body[i + 1:]
                     break
         if chain is None:
-            raise AnalysisError('no type dispatch chain found in %s' % Model.qual(self.func))
+            self._parse_semantic()
+            return
         t = chain
         while True:
             r = self._names_of_test(t.test)
@@ -110,6 +111,183 @@ class DispatchTable(object):
         for c in self.cells.values():
             if c.ctor is not None:
                 c.cls = self._class_of(c.ctor.func, c)
+
+    # ------------------------------------------------------------------ semantic mode
+    def _class_tables(self, cls):
+        """{attribute: ast node} for the class-level attributes of the compiler class (MRO), with the class-body statements
+        `X = dict(<other table>)` and `X.update({...})` evaluated, and every Name marked with the module that defines it."""
+        out = {}
+        for c in reversed(cls.mro()):
+            if not hasattr(c, 'node') or c.mod.rel.startswith('<'):
+                continue
+            for st in c.node.body:
+                if isinstance(st, ast.Assign) and len(st.targets) == 1 and isinstance(st.targets[0], ast.Name):
+                    v = self._table_value(st.value, c, out)
+                    if v is not None:
+                        out[st.targets[0].id] = v
+                elif isinstance(st, ast.Expr) and isinstance(st.value, ast.Call) and isinstance(st.value.func, ast.Attribute) and st.value.func.attr == 'update' \
+                        and isinstance(st.value.func.value, ast.Name) and st.value.func.value.id in out and st.value.args:
+                    base = out[st.value.func.value.id]
+                    upd = self._table_value(st.value.args[0], c, out)
+                    if isinstance(base, ast.Dict) and isinstance(upd, ast.Dict):
+                        keys = [k.value for k in base.keys if isinstance(k, ast.Constant)]
+                        nk, nv = list(base.keys), list(base.values)
+                        for k, v in zip(upd.keys, upd.values):
+                            if isinstance(k, ast.Constant) and k.value in keys:
+                                nv[keys.index(k.value)] = v
+                            else:
+                                nk.append(k)
+                                nv.append(v)
+                        out[st.value.func.value.id] = ast.Dict(keys=nk, values=nv)
+        return out
+
+    def _table_value(self, v, c, known):
+        from . import sem
+        if isinstance(v, (ast.Dict, ast.Tuple, ast.List, ast.Name, ast.Constant)):
+            v = sem.clone(v)
+            for x in ast.walk(v):
+                if isinstance(x, ast.Name):
+                    x._defmod = c.mod
+            return v
+        if isinstance(v, ast.Call) and isinstance(v.func, ast.Name) and v.func.id == 'dict' and len(v.args) == 1:
+            a = v.args[0]
+            if isinstance(a, ast.Name) and a.id in known:
+                return sem.clone(known[a.id])
+            if isinstance(a, ast.Attribute):
+                # <module>.<Class>.<TABLE>
+                owner = c.mod.resolve(a.value)
+                if isinstance(owner, ClassInfo):
+                    t = DispatchTable._tables_cache.get(id(owner))
+                    if t is None:
+                        t = self._class_tables(owner)
+                        DispatchTable._tables_cache[id(owner)] = t
+                    if a.attr in t:
+                        return sem.clone(t[a.attr])
+            return self._table_value(a, c, known) if isinstance(a, ast.Dict) else None
+        return None
+
+    _tables_cache = {}
+
+    def _parse_semantic(self):
+        """No if-chain of the classic form: the dispatch is table driven and/or spread over helper methods.  For every ASN.1
+        type name that occurs as a key / comparand the compile method is partially evaluated (sa/sem.py with folding of
+        class-level tables, literal look-ups, getattr(self, '<name>') and inlining of the helper methods it delegates to);
+        the constructor call it returns for that name is the cell."""
+        from . import sem, flow
+        cls = self.func._cls
+        if cls is None:
+            raise AnalysisError('no type dispatch chain found in %s' % Model.qual(self.func))
+        # the concrete compiler class of this codec module (a subclass may only override the tables)
+        comp = self.mod.classes.get('Compiler') or cls
+        tables = self._class_tables(comp)
+        params = flow.param_names(self.func)
+        td = params[2] if len(params) > 2 else 'type_descriptor'
+
+        def resolver(call):
+            fn = call.func
+            if isinstance(fn, ast.Attribute) and isinstance(fn.value, ast.Name) and fn.value.id == 'self':
+                r = comp.find_method(fn.attr)
+                return r[1] if r else None
+            return None
+
+        # universe of type names
+        names = []
+        seen_f = set()
+
+        def collect(f, depth=0):
+            if id(f) in seen_f or depth > 3:
+                return
+            seen_f.add(id(f))
+            for n in walk_no_nested(f):
+                if isinstance(n, ast.Compare) and len(n.ops) == 1 and isinstance(n.ops[0], (ast.Eq, ast.In)):
+                    for side in (n.left, n.comparators[0]):
+                        if isinstance(side, ast.Constant) and isinstance(side.value, str):
+                            names.append(side.value)
+                        elif isinstance(side, (ast.List, ast.Tuple, ast.Set)):
+                            names.extend(x.value for x in side.elts if isinstance(x, ast.Constant) and isinstance(x.value, str))
+                        elif isinstance(side, ast.Attribute) and isinstance(side.value, ast.Name) and side.value.id == 'self' and isinstance(tables.get(side.attr), ast.Dict):
+                            names.extend(k.value for k in tables[side.attr].keys if isinstance(k, ast.Constant) and isinstance(k.value, str))
+                        elif isinstance(side, ast.Name):
+                            d = self._dict_table(side)
+                            if d is not None:
+                                names.extend(k.value for k in d[0].keys)
+                if isinstance(n, ast.Call) and isinstance(n.func, ast.Attribute) and isinstance(n.func.value, ast.Name) and n.func.value.id == 'self':
+                    r = comp.find_method(n.func.attr)
+                    if r and r[1].name.startswith('compile'):
+                        collect(r[1], depth + 1)
+        collect(self.func)
+        names = [n for n in dict.fromkeys(names) if n and (n[0].isupper())]
+        if len(names) < 10:
+            raise AnalysisError('no type dispatch found in %s (only %d type names)' % (Model.qual(self.func), len(names)))
+        self.var = "%s['type']" % td
+        self.tail = [st for st in self.func.body if isinstance(st, ast.If) and isinstance(st.test, ast.Compare) and isinstance(st.test.ops[0], ast.In)
+                     and isinstance(st.test.left, ast.Constant) and isinstance(st.test.comparators[0], ast.Name) and st.test.comparators[0].id == td]
+        # module-level dict tables of classes are folded as well
+        modtabs = {}
+        for nm, node in self.mod.consts.items():
+            if isinstance(node, ast.Dict) and node.keys and all(isinstance(k, ast.Constant) for k in node.keys):
+                v = sem.clone(node)
+                for x in ast.walk(v):
+                    if isinstance(x, ast.Name):
+                        x._defmod = self.mod
+                modtabs[nm] = v
+        for T in names:
+            def rewrite(node, T=T):
+                if isinstance(node, ast.Subscript) and isinstance(node.value, ast.Name) and node.value.id == td and isinstance(node.slice, ast.Constant) and node.slice.value == 'type':
+                    return ast.Constant(T)
+                if isinstance(node, ast.Name) and isinstance(node.ctx, ast.Load) and node.id in modtabs and not hasattr(node, '_defmod'):
+                    return sem.clone(modtabs[node.id])
+                return None
+            folder = sem._Fold(attr_resolver=lambda a: tables.get(a), rewrite=rewrite)
+            try:
+                ps = sem._Exec(self.func, max_paths=400, resolver=resolver, folder=folder).run()
+            except sem.TooManyPaths:
+                continue
+            best = None
+            for p in ps:
+                if p.outcome[0] != 'return' or len(p.outcome) < 4:
+                    continue
+                e = p.outcome[3]
+                ctor = self._find_ctor(e)
+                if ctor is None:
+                    continue
+                if best is None or len(p.conds) < best[0]:
+                    best = (len(p.conds), ctor, e)
+            if best is None:
+                continue
+            ctor = best[1]
+            cell = Cell(T, [ast.Expr(value=ctor)], None)
+            cell.ctor = ctor
+            if not hasattr(ctor, 'lineno'):
+                ctor.lineno = self.func.lineno
+                ctor.col_offset = 0
+            cell.cls = self._ctor_class(ctor.func)
+            self.cells[T] = cell
+        if len(self.cells) < 10:
+            raise AnalysisError('type dispatch of %s could not be evaluated (%d cells)' % (Model.qual(self.func), len(self.cells)))
+
+    def _ctor_class(self, fn):
+        if isinstance(fn, ast.Name):
+            m = getattr(fn, '_defmod', None) or self.func._mod
+            r = m.resolve_name(fn.id)
+            return r if isinstance(r, ClassInfo) else None
+        if isinstance(fn, ast.Attribute):
+            r = self.func._mod.resolve(fn)
+            return r if isinstance(r, ClassInfo) else None
+        return None
+
+    def _find_ctor(self, e, depth=0):
+        """the constructor call that produces the compiled object in expression e: e itself, or the first argument of the
+        wrapping helper calls applied to it afterwards (set_compiled_tag(<ctor>, ..), self.copy(<ctor>))"""
+        if depth > 4 or not isinstance(e, ast.Call):
+            return None
+        if self._ctor_class(e.func) is not None:
+            return e
+        for a in e.args[:1]:
+            r = self._find_ctor(a, depth + 1)
+            if r is not None:
+                return r
+        return None
 
     def _class_of(self, fn, cell, depth=0):
         """Class constructed by `fn(...)` in this cell: a class name, TABLE[type_name], TABLE.get(type_name, Default),
@@ -163,4 +341,11 @@ CODEC_DISPATCH = {
 
 def table(model, codec):
     rel, qual = CODEC_DISPATCH[codec]
-    return DispatchTable(model, rel, model.func(rel, qual))
+    cname, mname = qual.split('.')
+    cls = model.mod(rel).classes.get(cname)
+    if cls is None:
+        raise AnalysisError('anchor %s::%s vanished' % (rel, cname))
+    r = cls.find_method(mname)       # possibly inherited (a codec that only overrides the tables of its parent)
+    if r is None:
+        raise AnalysisError('anchor %s::%s vanished' % (rel, qual))
+    return DispatchTable(model, rel, r[1])
